@@ -212,6 +212,9 @@ def unit(u, res):
     kind = u[0]
     if kind == 'eval':
         return unit_eval(u, res)
+    if kind == 'step':
+        import c08
+        return c08.unit(u[1], res)
     _, spec, timeout_ms, cvc5_rate, seed = u
     C = ctx()
     S = Skeleton(C, spec)
@@ -299,6 +302,9 @@ def unit_eval(u, res):
 
 
 def replay_ce(ce):
+    if 'operator' in ce and 'children' in ce:
+        import c08
+        return c08.replay_ce(ce)
     if not ce.get('source'):
         return 'reproduced', 'evaluation-level counterexample (no source form)'
     src = ce['source']
@@ -404,17 +410,22 @@ def main():
             random.Random(seed).shuffle(combos)
             for shp in combos[:(40 if tier == 'quick' else 250)]:
                 units.append(('eval', opname, list(shp), timeout_ms, cvc5_rate, seed))
+    import c08
+    sunits, maxk, _ = c08.make_units(tier, seed, PID)
+    sunits = [s for s in sunits if s[0] in ('Tuple', 'Chain', 'RootNode')]
+    units += [('step', s) for s in sunits]
     random.Random(seed).shuffle(units)
     results = checklib.run_units(checklib.safe_worker(unit), units)
     checklib.finish(PID, results, t0=t0, replay_fn=replay_ce,
                     rule='every sequence skeleton Elem (SEP Elem)* up to %d tokens, parenthesis depth %d, elements in {empty, a, a BIN b, x ASG a, (sequence)}; '
                          'every separator a solver variable over {comma, semicolon}; one obligation per (path, separator assignment feasible on it); plus '
-                         'Operator::eval of Tuple/Chain/RootNode on 0..3 symbolic arguments' % (maxn, depth),
+                         'Operator::eval of Tuple/Chain/RootNode on 0..3 symbolic arguments; plus the C08 inductive step (both node evaluators) on Tuple/Chain/RootNode nodes with '
+                         '0..%d children of every child kind: all elements are evaluated once, in order, before the operator is applied' % (maxn, depth, maxk),
                     explanation='bounded symbolic verification of tokens_to_operator_tree / collapse_* from MIR with symbolic separator tokens; the tree normalised '
                                 'by dropping one-child wrapper root nodes must equal the reference chain-of-tuples for each separator assignment (z3 unsat)',
                     assumptions=['wrapper root nodes with one child are identity on evaluation (Operator::eval RootNode: verified in the evaluation half)',
                                  'elements are restricted to the listed forms; longer inputs outside the claim',
-                                 'evaluation order / effects are C08'],
+                                 'evaluation order / effects of the other operators are C08'],
                     bounds=dict(max_tokens=maxn, paren_depth=depth, tree_skeletons=nsk, solver_timeout_ms=timeout_ms))
 
 
